@@ -1,6 +1,7 @@
-(** C18 - a recorded script replays to the same input events (statements grow). *)
-From Coq Require Import ZArith List Bool String.
-From VD Require Import Base.Bytes Base.Text Gen.Tables Model.Recorder Model.Keys Model.Replay Proofs.ReplayP.
+(** C18 - a recorded script replays to the same input events. *)
+From Coq Require Import ZArith List Bool.
+From VD Require Import Base.Bytes Base.Text Gen.Tables Model.Shlex Model.Command Model.Recorder Model.Keys Model.Replay.
+From VD Require Import Proofs.CommandP Proofs.ReplayP Proofs.LexP Proofs.RoundtripP.
 Import ListNotations.
 Open Scope Z_scope.
 
@@ -11,6 +12,41 @@ Theorem C18_key_name_decodes : forall key name,
 Proof. exact key_name_decodes. Qed.
 Print Assumptions C18_key_name_decodes.
 
+(** shlex (posix, whitespace split, '#' comments, quotes, backslash escapes) reads back exactly the
+    text that shlex.quote wrote - for EVERY text: quotes, backslash, hash, blanks, newlines included. *)
+Theorem C18_quote_reads_back : forall s rest acc,
+  lex (quote s ++ 32 :: rest) LSpace [] false acc = lex rest LSpace [] false (acc ++ [s]).
+Proof. exact lex_quote. Qed.
+Print Assumptions C18_quote_reads_back.
+
+(** The pause the recorder prints ("%.4f" of a non-negative gap) is a number Python's float() accepts. *)
+Theorem C18_pause_is_a_number : forall t, 0 <= t -> py_float_ok (fmt4 t) = true.
+Proof. exact fmt4_is_float. Qed.
+Print Assumptions C18_pause_is_a_number.
+
+(** A whole recorded session is tokenised into exactly the words of its commands. *)
+Theorem C18_script_tokens : forall evs mouse last script rest acc,
+  wf_session last evs -> record_all mouse last evs = Some script ->
+  lex (script ++ rest) LSpace [] false acc = lex rest LSpace [] false (acc ++ flat_map render (script_cmds mouse last evs)).
+Proof. exact script_tokens. Qed.
+Print Assumptions C18_script_tokens.
+
+(** The loop closes: for every session of key events over keysyms the recorder can name and pointer
+    events over any positions and masks, with non-decreasing times - what vnclog wrote, tokenised by
+    shlex, compiled by build_command_list and run through the key decoding, is the original sequence:
+    the same key presses and releases (same keysyms, same order), the same pointer moves, one click per
+    held button, and pauses carrying exactly the recorded gaps (divided by warp by the compiler, C10/C08). *)
+Theorem C18_roundtrip : forall evs, wf_session 0 evs -> Replay.roundtrip evs = Some (expected None 0 evs).
+Proof. exact roundtrip_ok. Qed.
+Print Assumptions C18_roundtrip.
+
 Example C18_key_name_decodes_nonvacuous :
-  key_name 65293 = Some (text_of_ascii "enter") /\ key_name 35 = Some [35] /\ key_name 1114112 = None.
+  key_name 65293 = Some [101; 110; 116; 101; 114] /\ key_name 35 = Some [35] /\ key_name 1114112 = None.
 Proof. vm_compute. repeat split. Qed.
+
+Example C18_roundtrip_nonvacuous :
+  wf_session 0 [IKey 5 1 35; IKey 9 0 39; IPtr 20 5 3 4; IKey 20 1 65293] /\
+  Replay.roundtrip [IKey 5 1 35; IKey 9 0 39; IPtr 20 5 3 4; IKey 20 1 65293] =
+  Some [RPause (fmt4 5); RKey true 35; RPause (fmt4 4); RKey false 39; RPause (fmt4 11); RMove 3 4; RClick 1; RClick 3;
+        RPause (fmt4 0); RKey true 65293].
+Proof. split; [cbn; repeat split; try lia; discriminate|vm_compute; reflexivity]. Qed.
